@@ -1,6 +1,24 @@
-/-! Driver commands of the `Life` cluster.  `handle` returns `none` for commands that are not its own. -/
+import TbotVerif.Spec.Life
+/-! Driver commands of the `Life` cluster (C13).  `handle` returns `none` for commands that are not its own. -/
 namespace Driver.Life
+open _root_.Life
 
-def handle (_toks : List String) : Option String := none
+def splitAt2 (toks : List String) (sep : String) : List String × List String :=
+  (toks.takeWhile (· != sep), (toks.dropWhile (· != sep)).drop 1)
+
+/-- `life <case>` → the model's observation (`bad-op` outside the domain `Case.wf`);
+    `spec C13 <case> || <obs>` → `1` / `0` -/
+def handle (toks : List String) : Option String :=
+  match toks with
+  | "life" :: rest =>
+    some (match Wire.case rest with
+    | some c => if c.wf then Wire.obs (run c) else "bad-op"
+    | none => "bad-op")
+  | "spec" :: "C13" :: rest =>
+    let (ct, ot) := splitAt2 rest "||"
+    some (match Wire.case ct, Wire.obsOf ot with
+    | some c, some o => if c.wf then (if Spec.C13 c o then "1" else "0") else "bad-op"
+    | _, _ => "bad-op")
+  | _ => none
 
 end Driver.Life
